@@ -101,6 +101,15 @@ func RStatus(r int) int
 func RMsg(r int) string
 func RUnchanged(r int) bool
 
+// RMarshalBack: json.Marshal of (a pointer to) the decoded value reproduces every non-empty
+// declared value of doc (keys the output omits must be absent, null or empty in doc; keys the
+// document lacks may appear; undeclared keys are outside the statement).
+func RMarshalBack(r, doc int) bool
+
+// RExtrasCollected: the map field at goPath of the decoded value holds exactly the undeclared
+// members (the extra members that are present) of the document node at docPath, with their values.
+func RExtrasCollected(r int, goPath string, doc int, docPath string) bool
+
 // REqual: the values decoded by two runs are equal (structurally, symbolic leaves by term).
 func REqual(r1, r2 int) bool
 
